@@ -93,12 +93,16 @@ pub enum Step {
     Sync { to: u8, req: Req },
     /// C04: honest proof for `req`, altered by `mutation`, offered to `to` before the honest one
     Tamper { to: u8, req: Req, mutation: crate::tamper::Mutation },
+    /// C04 thorough: the whole systematic alteration set of the honest proof, then the honest one
+    TamperAll { to: u8, req: Req },
     /// C09: raw request straight to create_proof on node n
     RawRequest { n: u8, block: Option<(u64, u64)>, hash: Option<(u64, u64)>, seek: Option<u64>, upgrade: Option<(u64, u64)> },
     /// C09: structurally arbitrary proof to verify_and_apply_proof on node n
     RawProof { n: u8, proof: crate::tamper::RawProofSpec },
     /// explicit full scan of node n against its model
     Scan { n: u8 },
+    /// C12: supplying a key pair together with open mode must be rejected (BadArgument)
+    BadOpen { n: u8 },
 }
 
 impl Step {
@@ -115,12 +119,16 @@ impl Step {
             | Step::MakeReadOnly { n }
             | Step::RawRequest { n, .. }
             | Step::RawProof { n, .. }
+            | Step::BadOpen { n }
             | Step::Scan { n } => *n,
-            Step::Sync { to, .. } | Step::Tamper { to, .. } => *to,
+            Step::Sync { to, .. } | Step::Tamper { to, .. } | Step::TamperAll { to, .. } => *to,
         }
     }
     pub fn is_mutating(&self) -> bool {
-        !matches!(self, Step::Get { .. } | Step::Has { .. } | Step::Info { .. } | Step::Scan { .. })
+        !matches!(
+            self,
+            Step::Get { .. } | Step::Has { .. } | Step::Info { .. } | Step::Scan { .. } | Step::BadOpen { .. }
+        )
     }
 }
 
@@ -158,6 +166,10 @@ pub struct CallSnap {
 }
 
 pub struct NodeRt {
+    /// indices announced by Have events / indices that became available per the model (C13)
+    pub announced: std::collections::BTreeSet<u64>,
+    pub became: std::collections::BTreeSet<u64>,
+    pub events_lost: bool,
     pub disk: Disk,
     pub core: Option<Hypercore>,
     pub model: Model,
@@ -368,6 +380,9 @@ impl World {
                 st.yield_mode = cfg.yield_mode;
             }
             w.nodes.push(NodeRt {
+                announced: Default::default(),
+                became: Default::default(),
+                events_lost: false,
                 disk,
                 core: None,
                 model: Model::new(n == 0),
@@ -495,6 +510,9 @@ impl World {
         let b = r.brief();
         if injected && matches!(r, Res::Err(..)) {
             self.aborted = Some(format!("injected fault surfaced in {what}: {b}"));
+            if !self.nodes[n].dead {
+                self.expect_events(n, &format!("failed {what}"), &[]);
+            }
             return;
         }
         if matches!(r, Res::Panic(_) | Res::Hang(_)) {
@@ -531,6 +549,17 @@ impl World {
 
     pub fn expect_events(&mut self, n: usize, what: &str, expected: &[Ev]) {
         let got = self.drain(n);
+        if let Some(g) = got.first() {
+            for e in g {
+                if let Ev::Have(s, l, false) = e {
+                    if *l < 200_000 {
+                        for i in *s..*s + *l {
+                            self.nodes[n].announced.insert(i);
+                        }
+                    }
+                }
+            }
+        }
         for (i, g) in got.iter().enumerate() {
             if g.as_slice() != expected {
                 self.viol(
@@ -565,6 +594,23 @@ impl World {
                 break;
             }
         }
+        // C13: the union of announced ranges equals the set of blocks that became available
+        if self.aborted.is_none() && self.cfg.subscribers > 0 {
+            for n in 0..self.nodes.len() {
+                let nd = &self.nodes[n];
+                if nd.events_lost || nd.dead || nd.disk.lock().fail_fired.is_some() {
+                    continue;
+                }
+                if nd.announced != nd.became {
+                    let only_a: Vec<u64> = nd.announced.difference(&nd.became).copied().take(5).collect();
+                    let only_b: Vec<u64> = nd.became.difference(&nd.announced).copied().take(5).collect();
+                    self.viol(
+                        "C13.union",
+                        format!("node {n}: announced-but-not-available {only_a:?}, available-but-not-announced {only_b:?}"),
+                    );
+                }
+            }
+        }
     }
 
     pub fn exec_step(&mut self, step: &Step) {
@@ -585,6 +631,7 @@ impl World {
             Step::MakeReadOnly { .. } => self.do_make_read_only(n),
             Step::Sync { req, .. } => crate::repl::do_sync(self, n, req),
             Step::Tamper { req, mutation, .. } => crate::repl::do_tamper(self, n, req, mutation),
+            Step::TamperAll { req, .. } => crate::tamper::do_tamper_all(self, n, req),
             Step::RawRequest { block, hash, seek, upgrade, .. } => {
                 crate::repl::do_raw_request(self, n, *block, *hash, *seek, *upgrade)
             }
@@ -592,6 +639,7 @@ impl World {
             Step::Scan { .. } => {
                 self.scan_and_judge(n, "scan");
             }
+            Step::BadOpen { .. } => self.do_bad_open(n),
         }
         if step.is_mutating() && self.aborted.is_none() {
             match self.cfg.scan {
@@ -665,6 +713,9 @@ impl World {
         match r {
             Res::Ok(out) => {
                 self.nodes[n].model.append(&blocks);
+                for i in old_len..old_len + blocks.len() as u64 {
+                    self.nodes[n].became.insert(i);
+                }
                 if n == 0 {
                     self.truth.append(&blocks);
                     for b in &blocks {
@@ -876,6 +927,31 @@ impl World {
                 self.end_call(c, false);
                 self.fail_call("reopen", &other);
             }
+        }
+    }
+
+    fn do_bad_open(&mut self, n: usize) {
+        let before = self.files(n);
+        let disk = self.nodes[n].disk.clone();
+        let kp = PartialKeypair { public: self.key.verifying_key(), secret: Some(self.key.clone()) };
+        {
+            self.nodes[n].disk.lock().call = u32::MAX;
+        }
+        let g = exec::run(async {
+            let storage = disk.storage().await?;
+            HypercoreBuilder::new(storage).key_pair(kp).open(true).build().await
+        });
+        let r = Res::from(g);
+        self.logf(|| format!("bad_open n{n} -> {}", brief_unit(&r)));
+        match r {
+            Res::Err("BadArgument", _) => {}
+            other => {
+                let b = brief_unit(&other);
+                self.viol("C12.badopen", format!("key_pair(..).open(true) must be rejected with BadArgument, got {b}"));
+            }
+        }
+        if self.files(n) != before {
+            self.viol("C12.badopen", "rejected key_pair+open changed the storage".into());
         }
     }
 
